@@ -18,6 +18,14 @@
 (*  "DropUndispatchedOnExit" at loop exit registered connections (new or   *)
 (*                           keep-alive, with or without a request         *)
 (*                           arriving) are abandoned to process exit       *)
+(* and one switch for a defect the current tree does NOT have (used to show  *)
+(* that the model and the fine-grained harness see the window):            *)
+(*  "RegisterBeforeAppendUnlocked" finish_request registers the socket     *)
+(*                           first and outside the lock, then appends to   *)
+(*                           _keep: a readable event in between takes the  *)
+(*                           "race condition" return and is lost           *)
+(* Fine = TRUE splits the keep-alive completion into FinishKeepA/B (the    *)
+(* pool thread holds the lock across both in the design).                  *)
 (* Intended design (Dev = {}): a full worker keeps polling its accepted    *)
 (* connections and only stops accepting; on stop it first dispatches what  *)
 (* has arrived and closes what is idle.                                    *)
@@ -29,7 +37,7 @@
 (***************************************************************************)
 EXTENDS Integers, Sequences, FiniteSets, TLC
 
-CONSTANTS Threads, WC, KA, NConn, MaxReq, Faults, AllowTerm, Dev, Obs, MaxLevel
+CONSTANTS Threads, WC, KA, NConn, MaxReq, Faults, AllowTerm, Fine, Dev, Obs, MaxLevel
 
 Conns == 1..NConn
 MaxKeepalived == WC - Threads
@@ -53,17 +61,21 @@ VARIABLES
   backlog,  \* listener backlog
   ready, acceptOK, cur, mcur,
   alive, termed, parentDead, faults, dbl,
+  lock,     \* worker._lock: 0 = free, c = held by the pool thread finishing connection c
+            \* (the main thread takes it only inside single atomic actions)
   last      \* observation only (Obs = TRUE): <<action, c, arg>>
 
 vars == <<mpc, nrConns, keep, ttl, futs, reg, accepted, closed, inited, job, jres, cb, queue, client,
           pend, sent, wantKeep, backlog, ready, acceptOK, cur, mcur, alive, termed, parentDead,
-          faults, dbl, last>>
+          faults, dbl, lock, last>>
 
 Note(a, c, x) == last' = IF Obs THEN <<a, c, x>> ELSE <<>>
 
 OpenSet == {c \in Conns : accepted[c] /\ ~closed[c]}
-InPool == {c \in Conns : job[c] \in {"running", "handled"}}
-Unfinished == {c \in Conns : job[c] \in {"queued", "running", "handled"}}
+InPool == {c \in Conns : job[c] \in {"running", "handled", "finishing"}}
+Unfinished == {c \in Conns : job[c] \in {"queued", "running", "handled", "finishing"}}
+LockFree == lock = 0
+RegFirst == "RegisterBeforeAppendUnlocked" \in Dev
 ThreadFree == Cardinality(Unfinished) < Threads
 InKeep(c) == \E i \in DOMAIN keep : keep[i] = c
 Remove(s, c) == SelectSeq(s, LAMBDA x : x # c)
@@ -81,7 +93,7 @@ Init ==
   /\ sent = [c \in Conns |-> 0] /\ wantKeep = [c \in Conns |-> FALSE] /\ backlog = <<>>
   /\ ready = <<>> /\ acceptOK = TRUE /\ cur = 0 /\ mcur = 0
   /\ alive = TRUE /\ termed = FALSE /\ parentDead = FALSE /\ faults = 0 /\ dbl = FALSE
-  /\ last = <<>>
+  /\ lock = 0 /\ last = <<>>
 
 (* ------------------------------------------------------------------ *)
 (* completion logic of finish_request (241-270), run by thread `who`  *)
@@ -139,7 +151,7 @@ SelectReturn ==
                  sent, wantKeep, backlog, cur, mcur, alive, termed, parentDead, faults, dbl>>
 
 Accept ==
-  /\ mpc = "dispatch" /\ ready # <<>> /\ Head(ready) = 0
+  /\ mpc = "dispatch" /\ ready # <<>> /\ Head(ready) = 0 /\ LockFree
   /\ ready' = Tail(ready)
   /\ IF backlog = <<>>
      THEN UNCHANGED <<nrConns, reg, accepted, backlog>> /\ Note("Accept", 0, "eagain")
@@ -150,7 +162,7 @@ Accept ==
                  acceptOK, cur, mcur, alive, termed, parentDead, faults, dbl>>
 
 Readable(c) ==
-  /\ mpc = "dispatch" /\ ready # <<>> /\ Head(ready) = c /\ c # 0
+  /\ mpc = "dispatch" /\ ready # <<>> /\ Head(ready) = c /\ c # 0 /\ LockFree
   /\ ready' = Tail(ready) /\ reg' = reg \ {c}
   /\ IF inited[c] /\ ~InKeep(c)
      THEN UNCHANGED <<mpc, keep, cur>>                       \* "race condition": return
@@ -170,7 +182,7 @@ Submit(c) ==
                  ready, acceptOK, cur, mcur, alive, termed, parentDead, faults, dbl>>
 
 AddCallback(c) ==
-  /\ mpc = "addcb" /\ cur = c /\ mpc' = "dispatch" /\ cur' = 0
+  /\ mpc = "addcb" /\ cur = c /\ mpc' = "dispatch" /\ cur' = 0 /\ (job[c] = "done" => LockFree)
   /\ IF job[c] = "done"
      THEN /\ FinishEffect(c, jres[c]) /\ job' = [job EXCEPT ![c] = "none"] /\ UNCHANGED cb   \* inline, main thread
      ELSE /\ cb' = [cb EXCEPT ![c] = TRUE]
@@ -197,7 +209,7 @@ ParentCheck ==
                  sent, wantKeep, backlog, ready, acceptOK, cur, mcur, alive, termed, parentDead, faults, dbl>>
 
 MurderPop ==
-  /\ mpc = "m_pop"
+  /\ mpc = "m_pop" /\ LockFree
   /\ IF keep = <<>>
      THEN mpc' = "top" /\ UNCHANGED <<keep, mcur, nrConns>> /\ Note("MurderPop", 0, "empty")
      ELSE LET c == Head(keep) IN
@@ -209,12 +221,12 @@ MurderPop ==
                  backlog, ready, acceptOK, cur, alive, termed, parentDead, faults, dbl>>
 
 MurderPutBack ==
-  /\ mpc = "m_back" /\ keep' = <<mcur>> \o keep /\ mpc' = "top" /\ mcur' = 0 /\ Note("MurderPutBack", mcur, "")
+  /\ mpc = "m_back" /\ LockFree /\ keep' = <<mcur>> \o keep /\ mpc' = "top" /\ mcur' = 0 /\ Note("MurderPutBack", mcur, "")
   /\ UNCHANGED <<nrConns, ttl, futs, reg, accepted, closed, inited, job, jres, cb, queue, client, pend, sent,
                  wantKeep, backlog, ready, acceptOK, cur, alive, termed, parentDead, faults, dbl>>
 
 MurderUnreg ==
-  /\ mpc = "m_unreg" /\ reg' = reg \ {mcur} /\ mpc' = "m_close" /\ Note("MurderUnreg", mcur, "")
+  /\ mpc = "m_unreg" /\ LockFree /\ reg' = reg \ {mcur} /\ mpc' = "m_close" /\ Note("MurderUnreg", mcur, "")
   /\ UNCHANGED <<nrConns, keep, ttl, futs, accepted, closed, inited, job, jres, cb, queue, client, pend, sent,
                  wantKeep, backlog, ready, acceptOK, cur, mcur, alive, termed, parentDead, faults, dbl>>
 
@@ -228,7 +240,7 @@ MurderClose ==
 IdleAtExit == IF "DropUndispatchedOnExit" \in Dev THEN {} ELSE {c \in reg : ~closed[c]}
 
 ShutdownPool ==
-  /\ mpc = "shutdown" /\ mpc' = "pclose"
+  /\ mpc = "shutdown" /\ mpc' = "pclose" /\ ("DropUndispatchedOnExit" \notin Dev => LockFree)
   /\ closed' = [c \in Conns |-> closed[c] \/ c \in IdleAtExit]
   /\ nrConns' = nrConns - Cardinality(IdleAtExit)
   /\ reg' = reg \ IdleAtExit /\ keep' = SelectSeq(keep, LAMBDA x : x \notin IdleAtExit)
@@ -252,11 +264,13 @@ GraceWait ==
   /\ UNCHANGED <<nrConns, keep, ttl, futs, reg, accepted, closed, inited, job, jres, cb, queue, client, pend,
                  sent, wantKeep, backlog, ready, acceptOK, cur, mcur, alive, termed, parentDead, faults, dbl>>
 
-MainNext ==
+MainNext0 ==
   \/ Notify \/ LoopExit \/ Gate \/ SelectReturn \/ Accept \/ (\E c \in Conns : Readable(c))
   \/ (\E c \in Conns : Submit(c)) \/ (\E c \in Conns : AddCallback(c)) \/ FuturesSweep \/ FullWait
   \/ ParentCheck \/ MurderPop \/ MurderPutBack \/ MurderUnreg \/ MurderClose
   \/ ShutdownPool \/ ClosePoller \/ CloseListeners \/ GraceWait
+
+MainNext == MainNext0 /\ UNCHANGED lock
 
 (* ------------------------------------------------------------------ *)
 (* pool threads                                                        *)
@@ -299,7 +313,39 @@ Finish(c, kind) ==
   /\ UNCHANGED <<mpc, accepted, inited, cb, queue, client, pend, sent, wantKeep, backlog, ready,
                  acceptOK, cur, mcur, alive, termed, parentDead, faults>>
 
-FinishKeep(c) == jres[c] = "keep" /\ alive /\ Finish(c, "FinishKeep")
+FinishKeep(c) == jres[c] = "keep" /\ alive /\ (~Fine \/ ~cb[c]) /\ LockFree /\ Finish(c, "FinishKeep")
+
+\* Fine = TRUE: the keep-alive branch of finish_request as two steps.
+\*  design / current tree:  A = set_timeout, acquire the lock, _keep.append     B = poller.register, release
+\*  RegFirst (deviation):    A = poller.register (no lock)                      B = set_timeout, locked _keep.append
+\* a register() that meets a closed poller raises: except branch (nr_conns -= 1, close)
+FinishKeepA(c) ==
+  /\ Fine /\ cb[c] /\ job[c] = "handled" /\ jres[c] = "keep" /\ alive /\ MarkDone(c)
+  /\ IF RegFirst
+     THEN IF PollerClosed
+          THEN /\ nrConns' = nrConns - 1 /\ closed' = [closed EXCEPT ![c] = TRUE] /\ dbl' = (dbl \/ closed[c])
+               /\ job' = [job EXCEPT ![c] = "none"] /\ UNCHANGED <<reg, keep, ttl, lock>>
+          ELSE /\ reg' = reg \cup {c} /\ job' = [job EXCEPT ![c] = "finishing"]
+               /\ UNCHANGED <<nrConns, closed, dbl, keep, ttl, lock>>
+     ELSE /\ LockFree /\ lock' = c /\ keep' = Append(keep, c) /\ ttl' = [ttl EXCEPT ![c] = KA]
+          /\ job' = [job EXCEPT ![c] = "finishing"] /\ UNCHANGED <<nrConns, closed, dbl, reg>>
+  /\ Note("FinishKeepA", c, "")
+  /\ UNCHANGED <<mpc, accepted, inited, jres, cb, queue, client, pend, sent, wantKeep, backlog, ready,
+                 acceptOK, cur, mcur, alive, termed, parentDead, faults>>
+
+FinishKeepB(c) ==
+  /\ job[c] = "finishing" /\ job' = [job EXCEPT ![c] = "none"] /\ jres' = [jres EXCEPT ![c] = "close"]
+  /\ IF RegFirst
+     THEN /\ LockFree /\ keep' = Append(keep, c) /\ ttl' = [ttl EXCEPT ![c] = KA]
+          /\ UNCHANGED <<nrConns, closed, dbl, reg, lock>>
+     ELSE /\ lock' = 0
+          /\ IF PollerClosed
+             THEN /\ nrConns' = nrConns - 1 /\ closed' = [closed EXCEPT ![c] = TRUE] /\ dbl' = (dbl \/ closed[c])
+                  /\ UNCHANGED <<reg, keep, ttl>>
+             ELSE /\ reg' = reg \cup {c} /\ UNCHANGED <<nrConns, closed, dbl, keep, ttl>>
+  /\ Note("FinishKeepB", c, "")
+  /\ UNCHANGED <<mpc, futs, accepted, inited, cb, queue, client, pend, sent, wantKeep, backlog, ready,
+                 acceptOK, cur, mcur, alive, termed, parentDead, faults>>
 FinishClose(c) == (jres[c] = "close" \/ (jres[c] = "keep" /\ ~alive)) /\ Finish(c, "FinishClose")
 FinishException(c) == jres[c] = "exc" /\ Finish(c, "FinishException")
 
@@ -315,8 +361,9 @@ Cancel(c) ==
   /\ UNCHANGED <<mpc, accepted, inited, cb, client, pend, sent, wantKeep, backlog, ready, acceptOK, cur,
                  mcur, alive, termed, parentDead>>
 
-PoolNext == \E c \in Conns : Pick(c) \/ HandleDone(c) \/ JobCrash(c) \/ FinishKeep(c) \/ FinishClose(c)
-                              \/ FinishException(c) \/ Cancel(c)
+PoolNext0 == \E c \in Conns : Pick(c) \/ HandleDone(c) \/ JobCrash(c) \/ FinishKeep(c) \/ FinishClose(c)
+                               \/ FinishException(c) \/ Cancel(c)
+PoolNext == (PoolNext0 /\ UNCHANGED lock) \/ (\E c \in Conns : FinishKeepA(c) \/ FinishKeepB(c))
 
 (* ------------------------------------------------------------------ *)
 (* environment                                                         *)
@@ -363,14 +410,16 @@ Exit ==
   /\ UNCHANGED <<nrConns, keep, ttl, futs, reg, accepted, inited, job, jres, cb, queue, client, pend, sent,
                  wantKeep, backlog, ready, acceptOK, cur, mcur, alive, termed, parentDead, faults, dbl>>
 
-EnvNext == (\E c \in Conns : ClientConnect(c) \/ ClientClose(c) \/ (\E k \in BOOLEAN : ClientSend(c, k)))
+EnvNext0 == (\E c \in Conns : ClientConnect(c) \/ ClientClose(c) \/ (\E k \in BOOLEAN : ClientSend(c, k)))
            \/ Tick \/ Term \/ ParentDies \/ Exit
+
+EnvNext == EnvNext0 /\ UNCHANGED lock
 
 Next == MainNext \/ PoolNext \/ EnvNext
 
 Fairness ==
-  /\ WF_vars(MainNext) /\ WF_vars(PoolNext) /\ WF_vars(Exit)
-  /\ \A c \in Conns : WF_vars(ClientClose(c))
+  /\ WF_vars(MainNext) /\ WF_vars(PoolNext) /\ WF_vars(Exit /\ UNCHANGED lock)
+  /\ \A c \in Conns : WF_vars(ClientClose(c) /\ UNCHANGED lock)
 
 Spec == Init /\ [][Next]_vars /\ Fairness
 SafetySpec == Init /\ [][Next]_vars
@@ -391,15 +440,15 @@ NeverExceedMax == Cardinality(OpenSet) <= WC /\ nrConns <= WC
 NoDoubleClose == ~dbl
 KeepAliveNotBefore == mpc \in {"m_unreg", "m_close"} => ttl[mcur] = 0
 \* a connection in _keep is idle and registered, a handled one is neither
-KeepIdle == \A c \in Conns : InKeep(c) /\ ~PollerClosed => (c \in reg /\ job[c] \in {"none", "done"} /\ ~closed[c])
+KeepIdle == \A c \in Conns : InKeep(c) /\ ~PollerClosed /\ lock # c => (c \in reg /\ job[c] \in {"none", "done"} /\ ~closed[c])
 
 NoCloseWhileHandled ==
   [][\A c \in Conns : (closed'[c] /\ ~closed[c]) =>
         (job[c] # "running" /\ (job[c] = "queued" => jres'[c] = "cancel"))]_vars
 
-Dispatched(c) == job[c] # "none" \/ closed[c] \/ c \notin reg
+Dispatched(c) == job[c] # "none" \/ closed[c]
 ServedIfThreadFree ==
-  \A c \in Conns : (accepted[c] /\ ~closed[c] /\ pend[c] /\ c \in reg /\ ThreadFree) ~> Dispatched(c)
+  \A c \in Conns : (accepted[c] /\ ~closed[c] /\ pend[c] /\ job[c] = "none" /\ ThreadFree) ~> Dispatched(c)
 EventuallyClosed == \A c \in Conns : accepted[c] ~> closed[c]
 ReturnsToZero == <>[](nrConns = 0 \/ mpc = "gone")
 ReapedWhenExpired == \A c \in Conns : (InKeep(c) /\ ttl[c] = 0 /\ alive) ~> (~InKeep(c) \/ ~alive)
